@@ -33,6 +33,8 @@ def skeletons(tier):
             if tier == "quick" and n == 3 and w.count("Y") > 1:
                 continue
             out.append({"id": f"r1-{w}", "ranks": {"0": w}})
+    for w in ["C", "CN", "NC", "CCN"]:
+        out.append({"id": f"r1-{w}-stream0", "ranks": {"0": w}, "params": {"stream0": True}})
     pairs = [("C", "N"), ("CN", "M"), ("CC", "CM")] if tier == "quick" else [
         (a, b) for a in ["C", "N", "CN", "CC", "CM"] for b in ["C", "M", "CN", "NM"]]
     for a, b in pairs:
@@ -48,7 +50,7 @@ def build(sk):
         for i, ch in enumerate(w):
             name, cat, cls = KCLASS[ch]
             ts, dur = f"$r{r}_k{i}_ts", f"$r{r}_k{i}_dur"
-            ev.append(TG.kernel(name, ts, dur, stream=7 + 13 * (i % 2), corr=100 + i, cat=cat))
+            ev.append(TG.kernel(name, ts, dur, stream=(0 if (sk.get('params', {}).get('stream0') and i == 0) else 7 + 13 * (i % 2)), corr=100 + i, cat=cat))
             ks.append((cls, ts, dur))
         ranks[int(r)] = ev
         kinfo[int(r)] = ks
